@@ -303,3 +303,110 @@ Proof.
   split; [exact Hd'|]. split; [exact Ho|]. split; [exact Hs|]. exists lA2, lN2, lR2. split; [exact Rd2|].
   split; [rewrite E2, U1, U2; reflexivity|]. intros s2 Hne Hs2. rewrite (Hk2 s2 Hne Hs2). apply Usec.
 Qed.
+
+(** ** The owner-name setter on a freshly parsed object *)
+Theorem set_name_fresh_is_set_name_after_decompress : forall nm n0 v it dv cur ref,
+  pp_maybe_compressed v = true -> pp_maybe_compressed dv = false -> it_offset it = Some ref ->
+  check_compressed_name nm 0 = Ok n0 ->
+  m_cursor_decompress ref (v, it) = ((dv, cur), Ok tt) ->
+  m_set_raw_name nm (v, it) = m_set_raw_name nm (dv, cur).
+Proof.
+  intros nm n0 v it dv cur ref Hmc Hmc' Eoff Hck Hdec.
+  unfold m_set_raw_name.
+  unfold cbind at 1. unfold clift at 1. rewrite Hck.
+  unfold cbind at 1. unfold getv at 1. cbn [fst snd]. unfold cbind at 1. unfold getit at 1. cbn [fst snd]. rewrite Hmc, Eoff.
+  unfold cbind at 1. rewrite Hdec.
+  symmetry.
+  unfold cbind at 1. unfold clift at 1.
+  unfold cbind at 1. unfold getv at 1. cbn [fst snd]. unfold cbind at 1. unfold getit at 1. cbn [fst snd]. rewrite Hmc'.
+  unfold cbind at 1. unfold cret at 1. reflexivity.
+Qed.
+
+Lemma unpl_with_labels r r' x ls : unpl (r, x) = unpl (r', x) -> unpl (with_labels (r, x) ls) = unpl (with_labels (r', x) ls).
+Proof.
+  intros E.
+  assert (Et : rv_type r = rv_type r') by (apply (f_equal (fun y : rec_view * rd_view => rv_type (fst y))) in E; exact E).
+  assert (Ec : rv_class r = rv_class r') by (apply (f_equal (fun y : rec_view * rd_view => rv_class (fst y))) in E; exact E).
+  assert (Ettl : rv_ttl r = rv_ttl r') by (apply (f_equal (fun y : rec_view * rd_view => rv_ttl (fst y))) in E; exact E).
+  unfold unpl, with_labels, rv_at. cbn [fst snd rv_with_labels rv_labels rv_type rv_class rv_ttl]. rewrite Et, Ec, Ettl. reflexivity.
+Qed.
+
+Theorem set_name_on_fresh_parse : forall nm p v qls qt lA lN lR sec l1 r x l2 n s',
+  bytes_ok p -> bytes_ok nm -> parse p = Ok v -> reading p qls qt lA lN lR -> sec = SAnswer \/ sec = SNameServers \/ sec = SAdditional ->
+  sec_list sec lA lN lR = l1 ++ (r, x) :: l2 -> is_opt r = false ->
+  m_set_raw_name nm (v, cur_on sec r n) = (s', Ok tt) ->
+  dinv (fst s') /\
+  exists n0 ls lA' lN' lR' U1 U2,
+    check_compressed_name nm 0 = Ok n0 /\ firstn n0 nm = wire_of_labels ls /\ name_ok ls /\
+    reading (pp_packet (fst s')) qls qt lA' lN' lR' /\
+    length lA' = length lA /\ length lN' = length lN /\ length lR' = length lR /\
+    map unpl (lA ++ lN ++ lR) = U1 ++ unpl (r, x) :: U2 /\
+    map unpl (lA' ++ lN' ++ lR') = U1 ++ unpl (with_labels (r, x) ls) :: U2 /\
+    length U1 = (match sec with SAnswer => 0 | SNameServers => length lA | _ => length lA + length lN end) + length l1.
+Proof.
+  intros nm p v qls qt lA lN lR sec l1 r x l2 n s' Hb Hbnm Hp Rd Hsec El Hno Hrun.
+  assert (Hck : exists n0, check_compressed_name nm 0 = Ok n0).
+  { unfold m_set_raw_name in Hrun. unfold cbind at 1 in Hrun. unfold clift at 1 in Hrun.
+    destruct (check_compressed_name nm 0) as [n0| |]; [eauto|inversion Hrun|inversion Hrun]. }
+  destruct Hck as (n0 & Hck).
+  destruct (sec_concat_split sec lA lN lR l1 (r, x) l2 Hsec El) as (L1 & L2 & EL & LL1).
+  destruct (cursor_decompress_fresh p v (cur_on sec r n) qls qt lA lN lR L1 r x L2 Hb Hp Rd EL ltac:(destruct Hsec as [->|[->| ->]]; discriminate))
+    as (dv & lA1 & lN1 & lR1 & L1' & r' & L2' & Hdec & Hd & _ & _ & Rd1 & EL' & LL1' & LA & LN & LR & F2).
+  change (it_set (it_set (cur_on sec r n) (Some (rv_off r')) (it_offset_next (cur_on sec r n)) (it_name_end (cur_on sec r n))) (Some (rv_off r'))
+            (rv_name_end r' + 10 + rv_rdlen r') (rv_name_end r')) with (cur_on sec r' n) in Hdec.
+  rewrite (set_name_fresh_is_set_name_after_decompress nm n0 v (cur_on sec r n) dv (cur_on sec r' n) (rv_off r) (parse_maybe_compressed p v Hp) (di_mc _ Hd) eq_refl Hck Hdec) in Hrun.
+  pose proof (same_rec_unpl _ _ F2) as EU. rewrite EL, EL', !map_app in EU. cbn [map] in EU.
+  destruct (app_split_len _ _ _ _ EU ltac:(rewrite !map_length; exact LL1')) as (U1e & Us2). destruct (cons_inj _ _ _ _ Us2) as [Ur U2e].
+  assert (Ety : rv_type r' = rv_type r) by (apply (f_equal (fun y : rec_view * rd_view => rv_type (fst y))) in Ur; exact Ur).
+  assert (Hno' : is_opt r' = false) by (unfold is_opt in *; rewrite Ety; exact Hno).
+  assert (Hin1 : In (r', x) (lA1 ++ lN1 ++ lR1)) by (rewrite EL'; apply in_or_app; right; left; reflexivity).
+  destruct (set_raw_name_keeps_dinv nm dv (cur_on sec r' n) s' qls qt lA1 lN1 lR1 r' x Hd Hbnm Rd1 Hin1 Hno' eq_refl eq_refl Hrun)
+    as (Hd' & n1 & ls & A & Nn & R & A' & Nn' & R' & X1 & r0 & X2 & Hrest).
+  cbv zeta in Hrest. destruct Hrest as (Hck1 & Hseg & Hls & EA & EN & ER & Rd2 & EX & EX' & Er' & LA' & LN' & LR' & _).
+  rewrite Hck in Hck1. injection Hck1 as <-.
+  split; [exact Hd'|]. eexists n0, ls, _, _, _, (map unpl L1), (map unpl L2). split; [exact Hck|]. split; [exact Hseg|]. split; [exact Hls|].
+  split; [exact Rd2|]. rewrite !place_length.
+  split; [rewrite LA', <- LA, EA, place_length; reflexivity|]. split; [rewrite LN', <- LN, EN, place_length; reflexivity|].
+  split; [rewrite LR', <- LR, ER, place_length; reflexivity|].
+  split; [rewrite EL, map_app; reflexivity|].
+  split; [|rewrite map_length; exact LL1].
+  (* the new lists *)
+  rewrite !map_app, !unpl_place, <- !map_app, EX', map_app. cbn [map].
+  assert (E1 : map unpl (lA1 ++ lN1 ++ lR1) = map unpl X1 ++ unpl (r0, x) :: map unpl X2).
+  { rewrite EA, EN, ER, !map_app, !unpl_place, <- !map_app, EX, map_app. reflexivity. }
+  rewrite EL', map_app in E1. cbn [map] in E1.
+  assert (LX1 : length (map unpl L1') = length (map unpl X1)).
+  { rewrite !map_length.
+    assert (Hp1 : lA1 ++ lN1 ++ lR1 = place (12 + length (wire_of_labels qls) + 4) (A ++ Nn ++ R)) by (rewrite EA, EN, ER; apply place3).
+    rewrite EX, place_split, EL' in Hp1.
+    assert (Hoff : rv_off r' = 12 + length (wire_of_labels qls) + 4 + length (cat X1)) by (rewrite Er'; reflexivity).
+    (* positions in a placed list are determined by offsets *)
+    destruct (Nat.lt_trichotomy (length L1') (length X1)) as [Hlt|[Heq|Hgt]]; [exfalso| exact Heq |exfalso].
+    - apply (f_equal (fun l => nth_error l (length L1'))) in Hp1.
+      assert (Hl : nth_error (L1' ++ (r', x) :: L2') (length L1') = Some (r', x)) by (rewrite nth_error_app2, Nat.sub_diag by lia; reflexivity).
+      rewrite Hl in Hp1. clear Hl.
+      match type of Hp1 with _ = nth_error (?a ++ ?b) _ => assert (Hr : nth_error (a ++ b) (length L1') = nth_error a (length L1')) by (apply nth_error_app1; rewrite place_length; lia) end.
+      rewrite Hr in Hp1. clear Hr.
+      symmetry in Hp1. apply nth_error_split_at in Hp1. destruct Hp1 as (pa & pb & Epl & Lpa).
+      destruct (place_split_at pa X1 _ r' x pb Epl) as (Y1 & y0 & Y2 & EY & _ & _ & Ery). rewrite Ery in Hoff. cbn [rv_at rv_off] in Hoff.
+      rewrite EY, cat_app, cat_cons, !app_length, plain_record_length in Hoff. lia.
+    - apply (f_equal (fun l => nth_error l (length X1))) in Hp1.
+      assert (Hl : nth_error (L1' ++ (r', x) :: L2') (length X1) = nth_error L1' (length X1)) by (apply nth_error_app1; lia).
+      rewrite Hl in Hp1. clear Hl.
+      match type of Hp1 with _ = nth_error (?a ++ ?y :: ?b) _ => assert (Hr : nth_error (a ++ y :: b) (length X1) = Some y)
+        by (rewrite nth_error_app2 by (rewrite place_length; lia); rewrite place_length, Nat.sub_diag; reflexivity) end.
+      rewrite Hr in Hp1. clear Hr.
+      apply nth_error_split_at in Hp1. destruct Hp1 as (pa & pb & Epl & Lpa).
+      assert (Hpl : place (12 + length (wire_of_labels qls) + 4) (A ++ Nn ++ R) = (pa ++ (rv_at (fst (r0, x)) (snd (r0, x)) (12 + length (wire_of_labels qls) + 4 + length (cat X1)), snd (r0, x)) :: pb) ++ (r', x) :: L2').
+      { rewrite <- Epl, <- EL', EA, EN, ER. symmetry. apply place3. }
+      rewrite <- app_assoc in Hpl. cbn [app] in Hpl.
+      destruct (place_split_at pa _ _ _ _ _ Hpl) as (Y1 & y0 & Y2 & EY & Epa & Erest & Ery).
+      symmetry in Erest. destruct (place_split_at pb Y2 _ r' x L2' Erest) as (Z1 & z0 & Z2 & _ & _ & _ & Erz).
+      rewrite Erz in Hoff. cbn [rv_at rv_off] in Hoff. cbn [fst snd rv_at rv_off] in Ery.
+      assert (Hoy : 12 + length (wire_of_labels qls) + 4 + length (cat X1) = 12 + length (wire_of_labels qls) + 4 + length (cat Y1)).
+      { apply (f_equal rv_off) in Ery. cbn [rv_at rv_off] in Ery. exact Ery. }
+      rewrite plain_record_length in Hoff. lia. }
+  destruct (app_split_len _ _ _ _ E1 LX1) as (EU1 & Et2). destruct (cons_inj _ _ _ _ Et2) as [Er0 EU2].
+  rewrite <- EU1, <- EU2, U1e, U2e. f_equal. f_equal.
+  apply unpl_with_labels. rewrite <- Er0. exact Ur.
+Qed.
